@@ -9,34 +9,35 @@ COMMON_NOTE = ("Trusted: GoVC itself (go/ssa -> SMT-LIB generator written for th
  "in /repo/fs/verif_contracts.go as the model of every file system, 64-bit int. Callers are checked against callee contracts, never bodies. "
  "Failed obligations with quantifiers give no model, so violations are reported with no-failing-input-found. ")
 C = {
- "C01": ("bucket-level part only: bucket.del keeps every other slot and shifts the tail (all slot indices, loop invariant), bucket Marshal/UnmarshalBinary are inverse on all 31 slots and the next pointer, bucketOffset, file.extend zero-fills and keeps the prefix, datalog.readKey/readKeyValue return exactly the stored key/value bytes of a valid slot, trackDel stays inside the table.",
-         "NOT covered: index.get/put/delete/findInsertionBucket/split and the DB methods (the abstract-map layer of DESIGN 4.6 was not reached), so map semantics as a whole is not decided; defect D1 in findInsertionBucket (repaired, see known_findings.json) lies in the uncovered part and is guarded only by its regression history in the thorough tier."),
- "C02": ("persistence codecs only: the bytes Close writes for a bucket decode to the same bucket (all slots, next pointer, padding), file.empty, file.extend preserve FILE-INV.",
-         "NOT covered: index/segment meta gob round trip, Open/Close sequencing, mmap vs plain FS equivalence."),
- "C03": ("write path of the log: file.append and datalog.writeRecord are append-only for every open file (no byte below the old length of any file changes, other files untouched, lengths only grow), the record lands at the returned offset of the current segment, DL-INV is preserved across rollover.",
-         "NOT covered: crash invariants at the DB level (index update vs WAL order, lock file protocol), recovery replay; datalog.swapSegment is trusted (contract assumed, body not verified)."),
- "C04": ("recovery's segment walk: recoveryIterator.next (every number of segments, every iteration: loop invariant + variant) keeps FILE-INV (cached file.size == length of the file behind the handle) for every segment it was given, including the one it truncates (this is the obligation that the pre-fix code of defect D2 fails), truncates only downwards and never below the header, returns ErrIterationDone only when every segment was consumed, and passes on only records the validating reader accepted; newSegmentIterator establishes the iterator invariant.",
+ "C01": ("index I/O and bucket level: bucket.del keeps every other slot and shifts the tail; bucket Marshal/UnmarshalBinary are inverse on all 31 slots and the next pointer; bucketHandle.read/write read and write exactly one bucket at its offset and leave every other byte of the file alone; bucketIterator.next walks the chain through the overflow file; index.bucketIndex is the linear-hashing address and is < numBuckets for every level/split pointer; IDX-WF (all overflow pointers inside the overflow file) is preserved by DB.promoteRecord, which also rewrites only the one slot it found and discards a record only after the whole bucket chain of its hash was walked (obligation at(return):discard-only-at-chain-end); readKey/readKeyValue return exactly the stored bytes of a valid slot.",
+         "NOT covered: index.get/put/delete/findInsertionBucket/split/slotWriter (the closures they receive are not supported yet; DB.put/DB.del have ASSUMED contracts), DB.Get/Has/Count/Items, so map semantics as a whole is not decided; defect D1 (repaired) is guarded only by its regression history in the thorough tier. DB.hash is assumed to be a function of bytes and seed."),
+ "C02": ("close side of a clean restart: DB.Close (database without background worker) writes db.pmt, every <segment>.pmt and index.pmt, closes every segment and both index files before it removes the lock file (obligation at(Unlock@2):closed-first), for every number of segments (loop invariant in datalog.close); openFile returns a wrapper with FILE-INV and recognises/creates the version-2 header; bucket codec round trip; file.empty/extend.",
+         "NOT covered: Open (readGobFile, openIndex, openDatalog), the gob encoding of the meta structs (what the bytes are is not modelled), mmap vs plain FS equivalence."),
+ "C03": ("write path and close protocol: file.append/datalog.writeRecord/put/del are append-only for every open file (no byte below the old length of any file changes, sealed segments are never written, lengths only grow); DB.Put/Delete keep DB-INV; DB.promoteRecord and DB.compact (sequential) keep it and remove the source segment last; DB.Close removes the lock file only after every other file was written and closed.",
+         "NOT covered: the order 'WAL record before index update' inside DB.Put (DB.put is an assumed contract), recovery replay (DB.recover), crash points inside a single file-system call (torn writes), Open. datalog.swapSegment, DB.put, DB.del are trusted (contracts assumed)."),
+ "C04": ("recovery's segment walk: recoveryIterator.next (every number of segments, every iteration: loop invariant + variant) keeps FILE-INV (cached file.size == length of the file behind the handle) for every segment it was given, including the one it truncates (the obligation the pre-fix code of defect D2 fails), truncates only downwards and never below the header, returns ErrIterationDone only when every segment was consumed, and passes on only records the validating reader accepted; segmentIterator.next reports 'done' only at the end of the file; newSegmentIterator establishes the iterator invariant.",
          "NOT covered: DB.recover (replay into the index, rebuilt segment metas, sealing of all but the newest segment), backupNonsegmentFiles/removeRecoveryBackupFiles, crashes during recovery itself, idempotence of recovery as a whole. Assumed of the caller: the segments are distinct files opened once (precondition recItInv)."),
- "C05": ("log-side steps used by compaction: removeSegment removes exactly the given table entry and leaves every other entry, writeRecord keeps all existing entries, trackDel only touches the meta of the slot's segment.",
-         "NOT covered: DB.compact/promoteRecord/pickForCompaction, interleaving with writers, recovery during compaction."),
- "C06": ("SEALED-DURABLE invariant of the log: after datalog.sync returns nil every segment of the table is durable up to its length; writeRecord (including rollover) keeps every non-current segment durable; removeSegment requires the remaining segments to be durable.",
-         "NOT covered: DB.Sync/Put sync modes, compaction syncing the copies before removal (defect D4 of DESIGN 6 is in DB.compact, not under contract, still present), index durability. datalog.swapSegment trusted."),
- "C08": ("the validating reader: for every file content and every offset segmentIterator.next returns a record iff the bytes at the offset are a complete record of the documented format with a matching CRC-32, returns exactly its key/value/type, advances by its size, and otherwise fails with ErrIterationDone/EOF/UnexpectedEOF/errCorrupted without advancing and without panicking; header.UnmarshalBinary/readHeader accept exactly the signature; encodeRecord produces what the reader accepts.",
-         "Also recoveryIterator.next: a segment is cut only at an offset where that reader rejects the record (obligation at(Truncate@1):cut-at-invalid), bytes below the new length are unchanged, later segments are still visited after a truncation. NOT covered: DB.recover's replay into the index; that a flipped bit changes the CRC is the assumed error-detection property of CRC-32 (crc is uninterpreted)."),
+ "C05": ("one compaction of one segment, sequentially: DB.compact seals the source, looks at every record up to the end of the file (obligation at(removeSegment@1):whole-segment-read), promotes through DB.promoteRecord, which discards a record only if no slot of the whole bucket chain points at it and otherwise appends a copy to a segment that accepts writes and repoints exactly that slot; sealed segments are never written; the source is removed last and every other table entry is kept; promoteRecord never returns ErrIterationDone (which compact would take for 'segment exhausted').",
+         "NOT covered: writers slipping in between two records (the lock-release windows are a property of schedules: the sequential contract assumes nobody else runs), pickForCompaction's choice and order (float arithmetic, sort), DB.Compact, recovery from a crash inside compaction."),
+ "C06": ("durability frontier of the log: after datalog.sync / DB.sync / DB.Sync return nil every segment of the table is durable up to its length; DB.Put and DB.Delete in sync-after-every-write mode end in that state; writeRecord (including rollover) keeps every non-current segment durable; DB.compact makes the copies durable before it removes the source (obligation pre(removeSegment@1):copies-durable - the one defect D4 failed before its repair).",
+         "NOT covered: durability of the index (it is rebuilt by recovery), recovery itself, fs implementations of Sync (interface contract assumed). datalog.swapSegment, DB.put, DB.del trusted."),
+ "C08": ("the validating reader: for every file content and every offset segmentIterator.next returns a record iff the bytes at the offset are a complete record of the documented format with a matching CRC-32, returns exactly its key/value/type, advances by its size, and otherwise fails with ErrIterationDone/EOF/UnexpectedEOF/errCorrupted without advancing and without panicking; recoveryIterator.next cuts a segment only at an offset where that reader rejects the record (obligation at(Truncate@1):cut-at-invalid), leaves the bytes below the new length unchanged and goes on with the later segments; header.UnmarshalBinary/readHeader accept exactly the signature; encodeRecord produces what the reader accepts.",
+         "NOT covered: DB.recover's replay into the index; that a flipped bit changes the CRC is the assumed error-detection property of CRC-32 (crc is uninterpreted)."),
+ "C09": ("DB.Close (database without background worker): when the lock file is removed, db.pmt, index.pmt, main.pix, overflow.pix, every segment of the table and every <segment>.pmt are durable up to their length (obligation at(Unlock@2):durable-first, carried by writeGobFile, index.close and the loop invariant of datalog.close for every number of segments). This is the obligation group that failed before the repair of defect D5.",
+         "NOT covered: that the next Open reads back what Close wrote (gob decoding, Open not under contract), files in the directory other than the ones named, a database with a background worker (precondition cancelBgWorker == nil)."),
  "C14": ("encodeRecord returns a freshly allocated buffer holding copies of key and value (arguments are not retained); readKey/readKeyValue results hold exactly the stored bytes.",
-         "NOT covered: that DB.Get/GetAppend/ItemIterator.Next copy out of FS memory before returning (DB layer not under contract), mmap remapping."),
- "C15": ("removeSegment: when it returns nil the table entry is nil, the handle is closed, and both <name> and <name>.pmt are gone from the directory; DL-INV still holds; datalog.sync succeeds (no error other than an I/O error) in every state satisfying DL-INV, including after the current segment was removed.",
-         "NOT covered: DB.compact's selection and reporting, bounded directory growth under a workload, descriptor/mapping accounting."),
- "C16": ("codec level: encodeRecord/encodePutRecord/encodeDeleteRecord store key length (all 0..65535) and value length (all 0..2^31-1) losslessly with the type bit; segmentIterator.next reads them back exactly; writeRecord's offset/size conversions are lossless; readKey/readKeyValue return slices of exactly keySize/valueSize bytes; slot.kvSize/encodedRecordSize arithmetic.",
-         "NOT covered: the limit checks in DB.Put and their atomicity, behaviour of Get/Has/Delete with over-long keys (DB layer)."),
- "C18": ("every encoder and decoder of the on-disk format against a fixed transcription of docs/design.md: 512-byte header (signature, version 2, zero padding) written by writeHeader/MarshalBinary and recognised by readHeader/UnmarshalBinary; record layout key size, type bit + value size, key, value, CRC32 in encodeRecord and segmentIterator.next; 512-byte bucket layout in bucket Marshal/UnmarshalBinary; bucketOffset.",
-         "NOT covered: segment file naming, gob-encoded meta files, compatibility with directories written by the pinned version (needs executions, not contracts), murmur hash."),
- "C19": ("allocation in recovery's reader: the only make() in segmentIterator.next is bounded by the bytes left in the segment file for every claimed key/value length (obligation segmentIterator.next#alloc@1:record-buffer); work per call is loop-free.",
-         "recoveryIterator.next's loop has a proved variant (2*remaining segments + current one), so one call visits each segment at most once. NOT covered: number of iterations of DB.recover's own loop."),
+         "NOT covered: that DB.Get/GetAppend/ItemIterator.Next copy out of FS memory before returning (not under contract), mmap remapping."),
+ "C15": ("removeSegment: when it returns nil the table entry is nil, the handle is closed, and both <name> and <name>.pmt are gone from the directory; DB.compact returns nil only after that; DL-INV still holds; datalog.sync/DB.Sync succeed (no error other than an I/O error) in every state satisfying DL-INV, including after the current segment was removed.",
+         "NOT covered: DB.Compact's selection and reporting, Backup after compaction, bounded directory growth under a workload, descriptor/mapping accounting."),
+ "C16": ("limits and codec: DB.Put rejects keys > 65535 and values > 512 MiB with the documented errors and leaves files, directory, key count and log untouched in that case; otherwise the lengths it hands to the encoder fit the on-disk fields (obligation pre(put@1):klen); datalog.put writes key size, value size, key and value bytes at the returned offset; encodeRecord/segmentIterator.next store and read back all key lengths 0..65535 and value lengths 0..2^31-1 losslessly; readKey/readKeyValue return slices of exactly keySize/valueSize bytes.",
+         "NOT covered: behaviour of Get/Has/Delete with over-long keys (closures, not under contract), round trip across restart/recovery."),
+ "C18": ("every encoder and decoder of the on-disk format against a fixed transcription of docs/design.md: 512-byte header (signature, version 2, zero padding) written by writeHeader/MarshalBinary and recognised by readHeader/UnmarshalBinary/openFile; record layout key size, type bit + value size, key, value, CRC32 in encodeRecord and segmentIterator.next; 512-byte bucket layout in bucket Marshal/UnmarshalBinary and bucketHandle.read/write; bucketOffset; the linear-hashing address computed by index.bucketIndex.",
+         "NOT covered: segment file naming, gob-encoded meta files (field names and types are not pinned), compatibility with directories written by the pinned version (needs executions, not contracts), murmur hash."),
+ "C19": ("allocation in recovery's reader: the only make() in segmentIterator.next is bounded by the bytes left in the segment file for every claimed key/value length (obligation segmentIterator.next#alloc@1:record-buffer); recoveryIterator.next's loop has a proved variant (2*remaining segments + current one), so one call visits each segment at most once.",
+         "NOT covered: number of iterations of DB.recover's own loop."),
 }
 NA = {
  "C07": "contracts are per call and sequential: linearizability of concurrent histories is outside what function contracts decide (DESIGN 7); the lock-discipline premises that could be checked were not built.",
- "C09": "not claimed: needs the durability frontier at DB.Close (all files synced before the lock file is removed); DB.Close, index.close, writeGobFile are not under contract. Defect D5 of DESIGN 6 (Close syncs nothing) is documented there and is not covered by any check.",
  "C10": "data races, deadlocks and goroutine leaks are properties of schedules; function contracts cannot decide them (DESIGN 7). The sequential no-panic sweep exists only for the functions listed under the other properties.",
  "C11": "not claimed: ItemIterator.Next/fetchItems are not under contract; the only tagged obligation group (readKeyValue) does not decide completeness or truthfulness of a scan.",
  "C12": "not claimed: DB.Backup is not under contract; the append-only contract of file.append alone does not decide snapshot consistency.",
@@ -68,7 +69,7 @@ m = {
  },
  "engines": [{"name": "govc", "path": "/verif/govc", "serves_properties": sorted(C), "kind_free_text": "contract-based deductive verifier for Go written for this task: contracts in //@ comments of /repo/**/verif_contracts*.go, go/ssa symbolic execution of the real functions between cut points, one SMT-LIB query per obligation and path, raced on z3 5.1.0 (two configurations), cvc5 1.0.3, z3 4.8.12; reachability guards against vacuous preconditions"}],
  "checks": checks,
- "notes": "Every claim is partial and says which functions carry it (DESIGN.md section 0a). Repaired defects: D3 (C06), D6, D7 (C15), D8 (C19) detected by obligations; D1 (C01), D2 (C04) found by design-phase histories, repaired, guarded by regression histories. Known but neither repaired nor covered: D4, D5 (DESIGN 6). selftest/run.py is the must-fail corpus (18 mutants incl. the pre-fix versions), run by the thorough tier.",
+ "notes": "Every claim is partial and says which functions carry it (DESIGN.md section 0a). Repaired defects: D2 (C04), D3, D4 (C06), D5 (C09), D6, D7 (C15), D8 (C19) are detected by obligations (pre-fix versions are canaries in selftest/corpus.json); D1 (C01) was found by a design-phase history and is guarded by regression histories. selftest/run.py is the must-fail corpus, run by the thorough tier; seeded/ holds 30 confirmed property-breaking changes written by sub-agents, with seeded/run.py and results.json.",
  "not_applicable": [{"property_id": k, "reason": v} for k,v in sorted(NA.items())],
 }
 json.dump(m, open("/verif/MANIFEST.json","w"), indent=1)
